@@ -179,7 +179,7 @@ var watchdog = func() time.Duration { // generous; firing is INCONCLUSIVE, never
 	}
 	return 120 * time.Second
 }()
-var aborted atomic.Bool          // set when a call did not return: remaining cases are skipped
+var aborted atomic.Bool // set when a call did not return: remaining cases are skipped
 
 type pinfo struct {
 	Msg   string `json:"panic"`
@@ -1211,13 +1211,13 @@ func liveStoreProbe(t *testing.T, run *core.Run) {
 
 func caseNames() []string {
 	var names []string
-	for i := 0; i < core.Pick(18, 200); i++ {
+	for i := 0; i < core.Pick(18, 160); i++ {
 		names = append(names, fmt.Sprintf("tiny/%04d", i))
 	}
-	for i := 0; i < core.Pick(14, 400); i++ {
+	for i := 0; i < core.Pick(14, 320); i++ {
 		names = append(names, fmt.Sprintf("smt/%04d", i))
 	}
-	for i := 0; i < core.Pick(8, 120); i++ {
+	for i := 0; i < core.Pick(8, 100); i++ {
 		names = append(names, fmt.Sprintf("store/%04d", i))
 	}
 	return names
@@ -1275,7 +1275,9 @@ type recorder struct {
 	bySig    map[string]*violRec
 }
 
-func newRecorder() *recorder { return &recorder{Counters: map[string]int64{}, bySig: map[string]*violRec{}} }
+func newRecorder() *recorder {
+	return &recorder{Counters: map[string]int64{}, bySig: map[string]*violRec{}}
+}
 
 func (r *recorder) Count(name string, n int64) { r.Counters[name] += n }
 func (r *recorder) Eval(n int)                 { r.Evals += n }
@@ -1285,7 +1287,9 @@ func (r *recorder) Sample(v any) {
 		r.Samples = append(r.Samples, v)
 	}
 }
-func (r *recorder) Inconclusive(f string, a ...any) { r.Inconcl = append(r.Inconcl, fmt.Sprintf(f, a...)) }
+func (r *recorder) Inconclusive(f string, a ...any) {
+	r.Inconcl = append(r.Inconcl, fmt.Sprintf(f, a...))
+}
 func (r *recorder) Violation(sig, caseName string, w any) bool {
 	if v, ok := r.bySig[sig]; ok {
 		v.N++
